@@ -441,7 +441,13 @@ Result execSymTN(const std::vector<std::string>& w) {
       for (Q x : v) { if (x != 0) ++nz; if (x != 0 && x != 1 && x != -1) perm = false; }
       if (nz != 1) perm = false;
     }
-    stat(perm ? "cf3_unit_vectors" : (3 * mu[1] <= mu[0] + mu[1] + mu[2] ? "cf3_trig_rpos" : "cf3_trig_rneg"));
+    bool rpos = 3 * mu[1] <= mu[0] + mu[1] + mu[2];
+    stat(perm ? "cf3_unit_vectors" : (rpos ? "cf3_trig_rpos" : "cf3_trig_rneg"));
+    if (!perm) {
+      // which branch of orthoComp the vector computed first (for the extreme eigenvalue) selects
+      const std::vector<Q>& e0 = rpos ? o.V[2] : o.V[0];
+      stat(qabs(e0[0]) > qabs(e0[1]) ? "cf3_ortho_xz" : "cf3_ortho_yz");
+    }
     if (!perm && nrm > 0) {
       Q g = std::min(mu[1] - mu[0], mu[2] - mu[1]) / nrm;
       stat(g == 0 ? "cf3_gap_zero" : g < (Q)1e-12 ? "cf3_gap_tiny" : g < (Q)1e-6 ? "cf3_gap_small" : "cf3_gap_wide");
